@@ -577,6 +577,42 @@ def check(model, rep, tier):
     rep.check(got == want, 'BI-FRAME', '%s:innermost=%s' % (fi.site, want),
               '%s must search with innermost=%s' % (fn_name, want),
               {'found': got}, line=fi.node.lineno)
+  # eval: namespaces the caller passed are used as passed; the frame's are the
+  # default for *omitted* arguments only (decided by the argument count)
+  ef = model.func(PYB, 'eval_in_original_context')
+  ep = ef.params(skip_self=False)
+  an = ep[1]
+  bad = []
+  n_sel = 0
+  for x in ast.walk(ef.node):
+    # truthiness-based defaulting of something taken from args
+    if isinstance(x, ast.BoolOp) and any(
+        isinstance(n, ast.Name) and (n.id == an or any(
+            isinstance(d, ast.AST) and an in core.norm(d)
+            for d in (tpl.rdefs(ef.node).reaching(x, n.id) or [])))
+        for v in x.values[:-1] for n in ast.walk(v)):
+      bad.append(core.norm(x)[:60])
+    tests = []
+    if isinstance(x, ast.IfExp):
+      tests = [x.test]
+    elif isinstance(x, ast.If):
+      tests = [x.test]
+    for t in tests:
+      n_sel += 1
+      names = {n.id for n in ast.walk(t) if isinstance(n, ast.Name)}
+      if an in names and not all(
+          isinstance(c, ast.Compare) and core.norm(c.left) == 'len(%s)' % an and
+          isinstance(c.comparators[0], ast.Constant) for c in [t]):
+        bad.append(core.norm(t)[:60])
+  rets = [r for r in core.walk_no_nested(ef.node) if isinstance(r, ast.Return)]
+  uses_frame = all(k in core.norm(ef.node) for k in ('.f_globals', '.f_locals'))
+  rep.check(not bad and uses_frame and len(rets) == 1, 'BI-FRAME',
+            '%s:namespaces-default-by-count' % ef.site,
+            'eval must use the globals / locals the caller passed, whatever their '
+            'value (an empty dict is the usual way to isolate an evaluation), and '
+            'fall back to the originating frame only for omitted arguments',
+            {'value_dependent_defaulting': bad, 'selections': n_sel},
+            line=ef.node.lineno, witness="eval('SECRET', {}) must raise NameError")
   # zero-argument super: class from the frame's __class__ cell, instance from
   # the frame's first argument (PEP 3135)
   sf = model.func(PYB, 'super_in_original_context')
@@ -650,6 +686,9 @@ def check(model, rep, tier):
             'FunctionScope.name must be the scope name argument', line=init.node.lineno)
 
   # ---------------------------------------------------------------- dependencies
+  rep.depends('C13', ['CALL-PARTIAL'],
+              'a partial of a substituted builtin is unwrapped by the call wrapper '
+              'before the builtin branch sees it')
   rep.depends('C13', ['CALL-POLICY'],
               'the context-sensitive builtins are served by the builtin branch of '
               'converted_call: every earlier exit of the policy chain runs them in '
